@@ -187,6 +187,10 @@ func checkC04(c C04Case) Outcome {
 			out.ExcludedBy = "D17"
 			return out
 		}
+		if openFinding("D30") && hasLabel(c.Lab, "flag-s") && inD30Class(ref, r.Stdout) {
+			out.ExcludedBy = "D30"
+			return out
+		}
 		if openFinding("D20") && !hasLabel(c.Lab, "flag-i") && inD20Class(ref, r.Stdout) {
 			out.ExcludedBy = "D20"
 			return out
